@@ -1,9 +1,11 @@
 import PiqpModel
 import PiqpModel.Driver.KKTCmd
+import PiqpModel.Driver.SolCmd
 open Piqp Piqp.Driver
 
 structure DState where
   km : Option KM := none
+  sm : Option SM := none
 
 def handle (st : DState) (line : String) : DState × List String :=
   let toks := (line.trimAscii.toString.splitOn " ").filter (· ≠ "")
@@ -22,6 +24,17 @@ def handle (st : DState) (line : String) : DState × List String :=
       | some km =>
         match runP (kmStep km cmd) args with
         | .ok (km', out) => ({ st with km := some km' }, out)
+        | .error e => (st, ["error " ++ e])
+    else if cmd = "sol.new" then
+      match runP smNew args with
+      | .ok sm => ({ st with sm := some sm }, [])
+      | .error e => (st, ["error " ++ e])
+    else if cmd.startsWith "sol." then
+      match st.sm with
+      | none => (st, ["error no solver machine"])
+      | some sm =>
+        match runP (smStep sm cmd) args with
+        | .ok (sm', out) => ({ st with sm := some sm' }, out)
         | .error e => (st, ["error " ++ e])
     else (st, ["error unknown command " ++ cmd])
 
